@@ -373,6 +373,21 @@ def run(tier):
             rep.ok("%s sets '%s' from %s" % (q, t, sorted(src)))
     rep.floor("writes to beginning-of-step parameters", 1)
     rep.floor("committed fields", 5)
+    # ---------------- R5 nothing is recorded for an attempt that execute rejects
+    import attempts
+    ar = attempts.analyse()
+    rep.extra["acceptance_test"] = {"where": rel(ar["loc"]), "condition": ar["cond"], "atoms": [list(a) for a in ar["atoms"]],
+                                    "accepted_under": [attempts.describe(dict(zip(ar["atoms"], v))) for v, acc in ar["table"].items() if acc]}
+    for q, o_ in sorted(ar["funcs"].items()):
+        rep.count("postConvergence call sites in the attempt functions", o_["pc_sites"])
+        if o_["pc_when_rejected"]:
+            V, loc = o_["pc_when_rejected"][0]
+            rep.fail("POSTCONVERGENCE-ONLY-IF-ACCEPTED@%s" % q, "%s: %s calls Study::postConvergence (the @Test comparisons, the user post-processings, "
+                     "the end-of-step parameters of the pipe test) although GenericSolver::execute (%s) rejects the attempt when %s: a rejected "
+                     "attempt leaves a trace" % (rel(loc), q, rel(ar["loc"]), attempts.describe(V)))
+        else:
+            rep.ok("%s calls Study::postConvergence only for attempts that execute accepts" % q)
+    rep.floor("postConvergence call sites in the attempt functions", 2)
     rep.floor("state fields an attempt may leave changed", 6)
     rep.floor("functions with a write summary on a state record", 20)
     rep.assumptions += ["writes whose base object cannot be resolved to a parameter, *this or a local (count in the evidence) are not attributed",
